@@ -20,7 +20,7 @@ def main():
     if True:
         c.run('main + run under a symbolic environment', 'rsym.hcli', 'Cli', dict(sample_rate=0.06 if c.tier == 'quick' else 0.5),
               required_witnesses=('to stdout', 'to file', 'input fault', 'exit 1'))
-    c.finish(bounds={'documents': 'root with <= 1 child, <= 1 attribute, optional text; names {b,type}/{a,b}', 'options': 'both parsers, both sort orders, derive unconstrained', 'environment': 'every combination of read/parse/create/write outcomes'},
+    c.finish(bounds={'documents': 'root with <= 2 children, <= 2 attributes, optional text; names {b,type}/{a,b} in either order (so that --sort is observable)', 'options': 'both parsers, both sort orders, derive unconstrained', 'environment': 'every combination of read/parse/create/write outcomes'},
              outside=['clap argv parsing', 'real file-system semantics beyond the sampled replays (existing output file, permissions)'],
              trusted=['rsym + environment stubs', 'z3', 'tools/replay', 'the real binary for replays'],
              technique='symbolic execution of main()/run() with symbolic Args and a nondeterministic environment; effect trace compared with the specified behaviour by z3 per path')
